@@ -34,7 +34,8 @@ RULE = ('cases = (a) chi² vector over {1, 2, 3.5, +inf, NaN} of length 0..5 (or
         'with / without model_fluxes; (b) distance-independent package (some models duplicated), extinction law, '
         'A_V range, sources (some with confidence-1 limits).  Non-trivial: at least 2 models.  Distinct = distinct '
         'canonical hash of the generated inputs')
-REQUIRED_BRANCHES = ['two_fitters', 'two_fitters_memmap', 'two_fitters_other_shape', 'two_fitters_same_shape',
+REQUIRED_BRANCHES = ['fitter_positional', 'fitter_keyword', 'source_via_copy', 'source_via_deepcopy', 'source_via_pickle',
+                     'fitinfo_via_copy', 'fitinfo_via_deepcopy', 'fitinfo_via_pickle', 'two_fitters', 'two_fitters_memmap', 'two_fitters_other_shape', 'two_fitters_same_shape',
                      'e2e3d_pkg_v1', 'e2e3d_pkg_cube', 'e2e3d_pkg_cube_memmap', 'direct', 'near_tie', 'near_tie_ulp', 'e2e_near_tie', 'tie', 'inf', 'nan', 'already_ranked', 'reordered', 'no_fluxes', 'with_fluxes',
                      'e2e', 'e2e_tie', 'e2e_1e30', 'e2e_clamped', 'e2e_reordered',
                      'e2e3d', 'e2e3d_tie', 'e2e3d_mask_changed_best', 'e2e3d_reordered', 'e2e3d_predicted_independent', 'e2e3d_dist_kpc', 'e2e3d_dist_pc', 'e2e3d_dist_other_unit',
@@ -417,6 +418,12 @@ def run_direct(case):
     try:
         info = ef.build_info(chi2, pay)
         info.model_id = None                      # as in Models.fit: set by sort()
+        via = ['none', 'none', 'copy', 'deepcopy', 'pickle'][int(key, 16) % 5]
+        if via != 'none':
+            import copy
+            import pickle
+            info = {'copy': copy.copy, 'deepcopy': copy.deepcopy, 'pickle': lambda x: pickle.loads(pickle.dumps(x, 2))}[via](info)
+            br.add('fitinfo_via_' + via)
         with common.quiet():
             info.sort()
         rows = ef.rows_of_info(info)
@@ -463,7 +470,7 @@ def check_rows_property(rows, chi2, pay):
 
 # ----------------------------------------------------------------------------- (b) end to end
 
-def build_cube(case, d):
+def build_cube(case, d, br=None):
     """version-2 package: the case's models as an SED cube with the case's (long) model names, tabulated at the fitted
     wavelengths plus two more, one aperture, fitted at wavelengths.  Wavelengths are tabulated and requested exactly
     as harness/c01.py does for its cube packages (requested wavelength possibly a little off the tabulated one and in
@@ -482,7 +489,7 @@ def build_cube(case, d):
     ext = pk.make_extinction(tab, case['tab_chi'], wav_unit=unit)
     units = case.get('filt_units') or ['micron'] * len(case['wavs'])
     fnames = [(w * u.micron).to(u.Unit(un)) for w, un in zip(case.get('req_wavs') or case['wavs'], units)]
-    fitter = pk.make_fitter(d, fnames, [1.] * len(fnames), ext, case['av'], use_memmap=False)
+    fitter = styled_fitter(case, d, fnames, [1.] * len(fnames), ext, case['av'], use_memmap=False, br=br)
     return fitter, names
 
 
@@ -493,7 +500,7 @@ def run_e2e(case):
     key = common.canon_hash(case)
     try:
         if case.get('c04pkg') == 'named_cube':
-            fitter, names = build_cube(case, d)
+            fitter, names = build_cube(case, d, br)
             br.add('e2e_cube')
             if any(len(n) > 30 for n in names):
                 br.add('e2e_cube_long_names')
@@ -507,7 +514,7 @@ def run_e2e(case):
         for si, src in enumerate(case['sources']):
             if c01.singular(case, src):
                 continue
-            s = pk.make_source('s%d' % si, src['flags'], src['flux'], src['err'])
+            s = via_source(pk.make_source('s%d' % si, src['flags'], src['flux'], src['err']), case, si, br)
             try:
                 with common.quiet():
                     info = fitter.fit(s)
@@ -588,7 +595,36 @@ def run_e2e(case):
         shutil.rmtree(d, ignore_errors=True)
 
 
-def build3d(case, d, which, remove_resolved=None):
+def styled_fitter(case, d, fnames, apertures_arcsec, ext, av, dist=(1., 2.), dist_unit=None, remove_resolved=False,
+                  use_memmap=False, br=None):
+    """Fitter(filter_names, apertures, model_dir, extinction_law, av_range, distance_range, remove_resolved, use_memmap):
+    everything by keyword (as harness/packages.py does) or everything positional in the documented order"""
+    from astropy import units as u
+    from sedfitter.fit import Fitter
+    positional = int(common.canon_hash(case), 16) % 2 == 0
+    if br is not None:
+        br.add('fitter_positional' if positional else 'fitter_keyword')
+    if not positional:
+        return pk.make_fitter(d, fnames, apertures_arcsec, ext, av, distance_range_kpc=dist, distance_unit=dist_unit,
+                              remove_resolved=remove_resolved, use_memmap=use_memmap)
+    with common.quiet():
+        return Fitter(fnames, np.array(apertures_arcsec, dtype=float) * u.arcsec, d, ext, tuple(av),
+                      np.array(dist, dtype=float) * u.Unit(dist_unit or 'kpc'), remove_resolved, use_memmap)
+
+
+def via_source(s, case, si, br=None):
+    """the Source goes through copy.copy / copy.deepcopy / a pickle round trip before it is fitted (or not at all)"""
+    import copy
+    import pickle
+    via = ['none', 'copy', 'deepcopy', 'pickle'][(int(common.canon_hash(case), 16) // 2 + si) % 4]
+    if via == 'none':
+        return s
+    if br is not None:
+        br.add('source_via_' + via)
+    return {'copy': copy.copy, 'deepcopy': copy.deepcopy, 'pickle': lambda x: pickle.loads(pickle.dumps(x, 2))}[via](s)
+
+
+def build3d(case, d, which, remove_resolved=None, br=None):
     """package holding the models `which` (indices) of the case: convolved-flux files (version 1) or an SED cube
     fitted at its tabulated wavelengths (version 2), the latter with or without use_memmap (float32 scratch files)"""
     from astropy import units as u
@@ -616,9 +652,8 @@ def build3d(case, d, which, remove_resolved=None):
                               logd_step=case['logd_step'])
         fnames = [w * u.micron for w in case['wavs']]
         use_memmap = (pkg == 'cube_memmap')
-    fitter = pk.make_fitter(d, fnames, case['ap_arcsec'], ext, case['av'],
-                            distance_range_kpc=case.get('dist_given', case['dist']), distance_unit=case.get('dist_unit'),
-                            remove_resolved=rr, use_memmap=use_memmap)
+    fitter = styled_fitter(case, d, fnames, case['ap_arcsec'], ext, case['av'], dist=case.get('dist_given', case['dist']),
+                           dist_unit=case.get('dist_unit'), remove_resolved=rr, use_memmap=use_memmap, br=br)
     return fitter, names
 
 
@@ -652,7 +687,7 @@ def run_e2e3d(case):
         with common.quiet():
             d0 = os.path.join(root, 'full')
             os.makedirs(d0)
-            full, names = build3d(case, d0, list(range(nm)))
+            full, names = build3d(case, d0, list(range(nm)), br=br)
             singles = []
             for m in range(nm):
                 dm = os.path.join(root, 'one%d' % m)
@@ -664,7 +699,7 @@ def run_e2e3d(case):
                 os.makedirs(dn)
                 nomask = build3d(case, dn, list(range(nm)), remove_resolved=False)[0]
         for si, src in enumerate(case['sources']):
-            s = pk.make_source('s%d' % si, src['flags'], src['flux'], src['err'])
+            s = via_source(pk.make_source('s%d' % si, src['flags'], src['flux'], src['err']), case, si, br)
             try:
                 with common.quiet():
                     got = pk.fit_arrays(full.fit(s))
